@@ -449,6 +449,27 @@ def _slot_sem(ctx: RuleContext, p: Program, rid: str) -> int:
                         problem = problem or f'{where_}: the slot holds neither the updated child nor a fresh one'
                 if has_child and slot is not child and child.f['value'] != 'OLD':
                     problem = problem or f'{where_}: the replaced child was modified as well'
+        # an assigned value that EQUALS the current one is still written: equal values are not equal texts (Decimal('5.00') == Decimal('5'),
+        # a date written with '/' equals the one written with '-'), and the caller asked for the new spelling
+        import decimal as _dec
+        old_v, new_v = _dec.Decimal('5'), _dec.Decimal('5.00')
+        it = Interp()
+        child = possem.Obj('Child', {'value': old_v, 'indent': 'OLDINDENT', 'fresh': False}, 'old child')
+        inner = possem.Obj('InnerProp', {'slot': child}, 'inner')
+        me = possem.Obj(c.name, {}, 'prop')
+        for q in params:
+            me.f['_' + q] = inner if q == 'inner_property' else possem.Obj('InnerType', {}, 'type') if q == 'inner_type' \
+                else possem.Obj('IndentProp', {}, 'indentprop') if 'indent' in q else None
+        cases += 1
+        try:
+            it.call_function(st, [me, possem.Obj('Owner', {}, 'instance'), new_v], {})
+            slot = inner.f['slot']
+            written = (slot is child and child.f['value'] is new_v) or (isinstance(slot, possem.Obj) and slot is not child and slot.f.get('value') is new_v)
+            if not written:
+                problem = problem or ('child present, assigned value equal to the current one (Decimal 5.00 over 5): nothing is written, so the text '
+                                      'keeps the old spelling although the caller assigned the new one')
+        except possem.Raised as ex:
+            problem = problem or f'child present, equal value assigned: raises {ex}'
         n += 1
         ctx.check(not problem, rid, f'models.internal.value_properties:{c.name}', 'set then get', f'{c.name}: {problem}: a value written through '
                   f'the property is not the value read back (or lands in the wrong node)', c.where, note=f'{cases} (child, value) cases')
@@ -468,6 +489,8 @@ def run(ctx: RuleContext, p: Program) -> None:
     ctx.try_rule(presence.rule_presence_truth, p, 'PRESENCE-TRUTH')
     from . import round4
     ctx.try_rule(round4.rule_set_covers, p, 'SET-COVERS')
+    ctx.try_rule(round4.rule_dec_exact, p, 'DEC-EXACT')
+    ctx.try_rule(round4.rule_meta_sem, p, 'META-SEM')
     ctx.not_decided += ['survival of values through print and re-parse', 'value domains of each token type (C12)',
                         'other dependent groups (none documented)']
     ctx.assumptions += ['primitive models of FSM-COST: unordered_node_property get/set means present/absent component of that type; '
